@@ -315,6 +315,154 @@ func runType(c *fw.Ctx, tc tcase) {
 			c.Count("codec_built", 1)
 		}
 	})
+	// the result belongs to the caller: after the caller has overwritten everything reachable from it, a further
+	// call still depends on the type alone
+	first := aschema.FromAvro(got).Print(nil)
+	scramble(&got)
+	var third avro.Schema
+	var err3 error
+	c.Guard(locus, "third SchemaForType("+tc.name+")", det, func() { third, err3 = avro.SchemaForType(item) })
+	if err3 != nil || aschema.FromAvro(third).Print(nil) != first {
+		c.Violation("depends-on-history|"+locus, fmt.Sprintf("after the caller edited the first result, SchemaForType(%s) gives %s (err=%v); the first call gave %s", tc.name, clip(aschema.FromAvro(third).Print(nil)), err3, clip(first)), det)
+	}
+}
+
+// scramble overwrites everything reachable from s in place.
+func scramble(s *avro.Schema) {
+	s.Type = "scrambled-" + s.Type
+	for i := range s.Union {
+		scramble(&s.Union[i])
+	}
+	if len(s.Union) > 1 {
+		s.Union[0], s.Union[len(s.Union)-1] = s.Union[len(s.Union)-1], s.Union[0]
+	}
+	if o := s.Object; o != nil {
+		o.Name += "V2"
+		o.Namespace += ".v2"
+		o.LogicalType = "scrambled"
+		o.Size += 7
+		for i := range o.Symbols {
+			o.Symbols[i] = "S" + o.Symbols[i]
+		}
+		for i := range o.Fields {
+			o.Fields[i].Name += "_v2"
+			scramble(&o.Fields[i].Type)
+		}
+		scramble(&o.Items)
+		scramble(&o.Values)
+	}
+}
+
+// ---- registration histories: generation must reflect the registry as it is NOW
+
+type HIn[Tag any] struct{ A int64 }
+type HOut[Tag any] struct {
+	X HIn[Tag]
+	L []HIn[Tag]
+	P *HIn[Tag]
+}
+type h1 struct{}
+type h2 struct{}
+type h3 struct{}
+type h4 struct{}
+type h5 struct{}
+type h6 struct{}
+type h7 struct{}
+type h8 struct{}
+type h9 struct{}
+type h10 struct{}
+type h11 struct{}
+type h12 struct{}
+
+func histTypes() [][2]reflect.Type {
+	return [][2]reflect.Type{
+		{reflect.TypeOf(HOut[h1]{}), reflect.TypeOf(HIn[h1]{})}, {reflect.TypeOf(HOut[h2]{}), reflect.TypeOf(HIn[h2]{})},
+		{reflect.TypeOf(HOut[h3]{}), reflect.TypeOf(HIn[h3]{})}, {reflect.TypeOf(HOut[h4]{}), reflect.TypeOf(HIn[h4]{})},
+		{reflect.TypeOf(HOut[h5]{}), reflect.TypeOf(HIn[h5]{})}, {reflect.TypeOf(HOut[h6]{}), reflect.TypeOf(HIn[h6]{})},
+		{reflect.TypeOf(HOut[h7]{}), reflect.TypeOf(HIn[h7]{})}, {reflect.TypeOf(HOut[h8]{}), reflect.TypeOf(HIn[h8]{})},
+		{reflect.TypeOf(HOut[h9]{}), reflect.TypeOf(HIn[h9]{})}, {reflect.TypeOf(HOut[h10]{}), reflect.TypeOf(HIn[h10]{})},
+		{reflect.TypeOf(HOut[h11]{}), reflect.TypeOf(HIn[h11]{})}, {reflect.TypeOf(HOut[h12]{}), reflect.TypeOf(HIn[h12]{})},
+	}
+}
+
+// runHistories: every history of length 3 over {G = generate the outer type (and compare with the mapping under
+// the registry as it is at that moment), R1 / R2 = register schema 1 / 2 for the inner named type}, each history
+// on a pair of types no earlier history has touched (a registration cannot be undone).
+func runHistories(c *fw.Ctx) {
+	s1 := avro.Schema{Type: "string"}
+	s2, _ := avro.SchemaFromString(`{"type":"long","logicalType":"hist-two"}`)
+	r1, r2 := ref.Prim("string"), &ref.Schema{Type: "long", Logical: "hist-two", ObjectForm: true}
+	hts := histTypes()
+	k := 0
+	transitions := 0
+	var rec func(h []int)
+	run := func(h []int) {
+		if k >= len(hts) {
+			c.HarnessError("not enough fresh types for the registration histories")
+			return
+		}
+		outer, inner := hts[k][0], hts[k][1]
+		k++
+		regy := spec.Registry{}
+		for t, s := range registry {
+			regy[t] = s
+		}
+		desc := ""
+		for _, op := range append(append([]int{}, h...), 0) { // every history ends with a generation
+			transitions++
+			switch op {
+			case 1:
+				avro.RegisterSchema(inner, s1)
+				regy[inner] = r1
+				desc += "Register(s1) "
+				continue
+			case 2:
+				avro.RegisterSchema(inner, s2)
+				regy[inner] = r2
+				desc += "Register(s2) "
+				continue
+			}
+			desc += "Generate "
+			c.Eval(1)
+			c.Nontrivial("hist:" + fmt.Sprint(h) + desc)
+			want, verdict, _ := spec.SchemaFor(outer, regy)
+			det := map[string]interface{}{"history": desc, "type": outer.String()}
+			var got avro.Schema
+			var err error
+			if c.Guard("history", "SchemaForType after "+desc, det, func() { got, err = avro.SchemaForType(reflect.New(outer).Elem().Interface()) }) {
+				return
+			}
+			if verdict != spec.Defined || err != nil {
+				c.Violation("spurious-error|history", fmt.Sprintf("SchemaForType failed after [%s]: %v", desc, err), det)
+				return
+			}
+			if d := aschema.Diff(aschema.ToAvro(want), got); d != "" && !(len(h) == 0 || regy[inner] == nil) {
+				c.Violation("depends-on-history|registration", fmt.Sprintf("after [%s] SchemaForType gives %s, the mapping under the registrations in force says %s (first difference at %s)", desc, clip(aschema.FromAvro(got).Print(nil)), clip(want.Print(nil)), d), det)
+				return
+			} else if d != "" && !usesNamedStructTwice(outer) {
+				c.Violation("wrong-schema|history", fmt.Sprintf("after [%s]: %s", desc, d), det)
+				return
+			}
+		}
+	}
+	rec = func(h []int) {
+		if len(h) > 0 {
+			run(h)
+		}
+		if len(h) == 2 {
+			return
+		}
+		for op := 0; op < 3; op++ {
+			if len(h) > 0 && op == 0 && h[len(h)-1] == 0 {
+				continue // two generations in a row are the determinism check of every type
+			}
+			rec(append(append([]int{}, h...), op))
+		}
+	}
+	rec(nil)
+	c.Count("states", int64(k))
+	c.Count("transitions", int64(transitions))
+	c.Sample(map[string]interface{}{"kind": "generate/register histories on fresh named types", "histories": k, "transitions": transitions})
 }
 
 // usesNamedStructTwice reports whether some named, unregistered struct type occurs at two or more positions in t.
@@ -393,7 +541,7 @@ func init() {
 		ID:    "C15",
 		Level: "exploration",
 		Rule: func(tier string) string {
-			return "bounded-exhaustive enumeration of Go struct types (reflect.StructOf + static named/recursive types): 84 field types (every kind incl. unsupported ones, slices/maps/pointers/arrays of them, named struct, registered library and harness types) × 15 tag combinations as single-field structs; each field type in a 5-field struct with unexported/excluded siblings; each behind {struct, *struct, []struct, map[string]struct, []*struct} with omitempty; embedded exported/pointer/unexported structs; the same named struct in 2–3 positions; 7 self-referential shapes (own worker case each, 64 MiB stack)" + map[string]string{"thorough": "; all ordered pairs of field types", "quick": ""}[tier] + "; oracle = the documented mapping written as a total specification function (spec.SchemaFor) + structural validity + determinism (value and pointer call) + Schema.Codec returns without panic; non-trivial = the mapping defines a verdict (schema or must-fail) for the type"
+			return "bounded-exhaustive enumeration of Go struct types (reflect.StructOf + static named/recursive types): 84 field types (every kind incl. unsupported ones, slices/maps/pointers/arrays of them, named struct, registered library and harness types) × 15 tag combinations as single-field structs; each field type in a 5-field struct with unexported/excluded siblings; each behind {struct, *struct, []struct, map[string]struct, []*struct} with omitempty; embedded exported/pointer/unexported structs; the same named struct in 2–3 positions; 7 self-referential shapes (own worker case each, 64 MiB stack)" + map[string]string{"thorough": "; all ordered pairs of field types", "quick": ""}[tier] + "; oracle = the documented mapping written as a total specification function (spec.SchemaFor) + structural validity + determinism (value and pointer call; and a third call after the caller has overwritten everything reachable from the first result) + Schema.Codec returns without panic; plus every history of length<=3 over {generate, register schema 1, register schema 2 for the inner named type} on fresh generic types, each generation compared with the mapping under the registrations in force at that moment; non-trivial = the mapping defines a verdict (schema or must-fail) for the type"
 		},
 		Assumptions: []string{
 			"Go arrays are not mentioned by the documented mapping: types containing them are exercised (no panic, determinism, validity) but their schema is not judged",
@@ -404,10 +552,15 @@ func init() {
 		Init: initC15,
 		NumCases: func(tier string) int {
 			n, solos, _ := layout(tier)
-			return n + len(solos)
+			return n + len(solos) + 1
 		},
 		RunCase: func(c *fw.Ctx, idx int) {
 			n, solos, normal := layout(c.Tier)
+			if idx == n+len(solos) {
+				c.Begin("history", "generate/register histories")
+				runHistories(c)
+				return
+			}
 			if idx >= n {
 				runType(c, solos[idx-n])
 				c.Sample(map[string]interface{}{"type": solos[idx-n].name, "kind": "self-referential"})
